@@ -8,7 +8,9 @@
 
 mod bits;
 mod comps;
+mod gen_queries;
 mod gen_tuples;
+mod query_engine;
 mod sched;
 mod world_engine;
 
@@ -85,7 +87,7 @@ fn main() {
             write!(w, "{}", x).unwrap();
         }
         if !out.oracle.is_empty() {
-            write!(w, " ! {}", out.oracle.join(" | ")).unwrap();
+            write!(w, " ! {}", out.oracle.join(" | ").replace('\n', " ").replace('\r', " ")).unwrap();
         }
         w.write_all(b"\n").unwrap();
         // a crash of the implementation must not lose the lines before it
